@@ -52,6 +52,15 @@ ASSUMPTIONS = [
 ]
 
 
+def T_struct_leaves(name):
+    """leaf fields (path, start, width, signed) of a live struct of messages.py / encoding.py"""
+    from harness import msgs as H
+    from translate import msg_layouts as T
+    import netqasm.lang.encoding as E
+    cls = getattr(H.M, name, None) or getattr(E, name)
+    return T.leaves(cls)
+
+
 def run(ctx):
     from harness import msgs as H
     from harness import codec as HC
@@ -136,6 +145,48 @@ def run(ctx):
                                            "got": H.brief(rd), "first_differences": diff}})
         if len(res.samples) < 5 and res.evaluations % 61 == 0 and len(key) < 300:
             res.samples.append({"dir": direction, "m": mj, "bytes": rb})
+
+    # ---------------------------------------------------------------- boundary SIZES of the count fields
+    # array lengths around 2^w for every width w in play for a length / count field: the live width of the
+    # header's length field, the pinned one, and the standard 8 / 16 bit widths (within a cap of 2^17
+    # entries) -- the real round trip, so that a narrowed length field yields the concrete array; the
+    # array is described by its recipe, not listed
+    widths = {8, 16}
+    try:
+        for _, _, w, _ in T_struct_leaves("ReturnArrayMessageHeader"):
+            widths.add(w)
+        for name, _, w, _ in H.pinned_struct("retArrHeader"):
+            widths.add(w)
+    except Exception:
+        pass
+    sizes = sorted({n for w in widths if w <= 17 for n in (2 ** w - 1, 2 ** w, 2 ** w + 1, 2 ** w + 3)
+                    if n <= 2 ** 17})
+    for n in sizes:
+        for recipe in ("i", "none-every-3rd", "all-none"):
+            if n > 300 and recipe == "all-none" and not thorough and n % 2:
+                continue
+            res.evaluations += 1
+            res.count("boundary-size")
+            res.nontrivial.add(("boundary-size", n, recipe))
+            addr = rng.choice([0, 7, -1])
+            vals = [None if (recipe == "all-none" or (recipe == "none-every-3rd" and i % 3 == 0)) else (i % 1000) - 500
+                    for i in range(n)]
+            desc = {"address": addr, "length": n, "values": recipe + (": v[i] = i % 1000 - 500" if recipe != "all-none"
+                                                                         else "")}
+            try:
+                raw = bytes(H.M.ReturnArrayMessage(addr, list(vals)))
+                back = H.M.deserialize_return_msg(raw)
+                got_a, got_v = back.address, back.values
+            except Exception as e:
+                res.failures.append({"what": "round trip of an array of a boundary size raises", "kf": None,
+                                     "input": dict(desc, exception=type(e).__name__ + ": " + str(e)[:120])})
+                continue
+            if got_a != addr or len(got_v) != n or got_v != vals:
+                first = next((i for i, (a, b) in enumerate(zip(vals, got_v)) if a != b), None)
+                res.failures.append({"what": "deserialize(bytes(m)) != m for an array whose length is at a boundary "
+                                             "of a count-field width", "kf": None,
+                                     "input": dict(desc, decoded_address=got_a, decoded_length=len(got_v),
+                                                   first_differing_index=first, bytes_len=len(raw))})
 
     # ---------------------------------------------------------------- SDK-produced host messages
     from harness import reject as R
